@@ -109,6 +109,14 @@ public:
 
     // Calculate TTL from DNS result
     std::uint32_t ttl = calculateResultTtl(result);
+    if (ttl == 0)
+    {
+      // TTL 0 means "do not cache" (RFC 1035 3.2.1). ExpiringCache::set() treats
+      // a zero TTL as "use the default", which would serve this answer for
+      // minutes. Drop whatever was cached for the question instead.
+      cache_->remove(key);
+      return;
+    }
 
     // Store positive result
     CachedDnsResult cachedResult(result);
@@ -150,6 +158,13 @@ public:
     auto existingEntry = cache_->get(key);
     bool hadEntry = existingEntry.has_value();
     bool hadNegativeEntry = hadEntry && existingEntry->isNegative;
+
+    if (negativeTtl == 0)
+    {
+      // A zero negative-caching TTL means "do not cache" (see put()).
+      cache_->remove(key);
+      return;
+    }
 
     // Store negative result
     CachedDnsResult cachedResult(result, errorMessage);
